@@ -142,6 +142,8 @@ def validate_histories(ctx, plan, name, sig_prefix, max_rounds=6, spec_module="T
         # reproduce in isolation
         single = dict(plan)
         single["histories"] = [plan["histories"][h]]
+        # the same payload contents as in the run that was rejected (the driver derives them from the history index)
+        single["ver_base"] = plan["ver_base"] if plan.get("ver_base") is not None else (h * 5) % 44
         _, trace1, rep1 = run_store(ctx, single, "%s_repro%d" % (name, rounds), race=race)
         ok1, bad1, _, _ = ctx.validate_trace(STORE_SPEC, spec_module, cfg, trace1)
         if ok1:
